@@ -69,4 +69,12 @@ CLAIMS.update({
          "i64::MIN / MAX / negative integers, disabled variants; every key declared anywhere in the enum plus case / prefix / whitespace / r# variations and random strings through all three getters.",
          "DESIGN.md §6 C15", "The merge of several props(..) groups happens in syn-level attribute collection (variant_props.rs:155-157), exercised by every corpus item with more than one group; the model starts from the merged list."),
 })
+CLAIMS.update({
+ 'C07': ("Lean 4 proof: heck's word-splitting state machine = a declarative boundary rule, for every byte string; per-style table; mode-A exhaustive identifier correspondence + mode-B derive correspondence",
+         "lean/StrumProofs/Lemmas/Heck.lean + C07.lean: heckWords_eq_specWords (transcribed heck 0.5 `transform` = split at non-alphanumerics + boundary before an upper-case char whose previous letter is lower-case, or upper-case with a lower-case next char), "
+         "convert_case_spec (all 11 styles), camel_eq_mixed, lower_upper_only_case, explicit_never_recased, style_table (all 16 accepted strings, kernel-evaluated). "
+         "Correspondence: mode A - EVERY valid identifier over {a,b,A,B,0,_} up to length 5 (quick) / 7 (thorough) + dictionary x 16 style strings + rejected strings through the macro's own CaseStyle::from_str / convert_case run from /repo sources; "
+         "mode B - sampled identifiers x 16 styles compiled with six derives (VARIANTS, printed forms, from_str of renamed and original spelling, round trip, explicit names untouched).",
+         "DESIGN.md §6 C07", "heck 0.5.0 is a dependency: its `transform` is modelled (transcribed) and validated by the exhaustive mode-A run, not verified from its source. ASCII identifiers only (Unicode case mapping inside heck is not modelled)."),
+})
 NOT_CLAIMED = {}
